@@ -1177,7 +1177,6 @@ class CSSMatch(_DocumentNav):
         match = False
         has_ns = self.supports_namespaces()
         root = self.root
-        has_html_namespace = self.has_html_namespace
 
         # Walk parents looking for `lang` (HTML) or `xml:lang` XML property.
         parent = el  # type: bs4.Tag | None
@@ -1201,7 +1200,6 @@ class CSSMatch(_DocumentNav):
 
             if parent is None:
                 root = last
-                has_html_namespace = self.has_html_ns(root)
                 parent = last
                 break
 
@@ -1214,14 +1212,14 @@ class CSSMatch(_DocumentNav):
                     found_lang = cache[1]
 
         # If we couldn't find a language, and the document is HTML, look to meta to determine language.
-        if (
-            found_lang is None and not cached and
-            (not self.is_xml or (has_html_namespace and root and root.name == 'html'))
-        ):
+        if found_lang is None and not cached and self.is_html:
             # Find head
             found = False
             for tag in ('html', 'head'):
-                found = False
+                # The top of this document may be the `html` element itself (a detached tree, or the document inside an `iframe`).
+                found = tag == 'html' and self.get_tag(parent) == 'html' and self.is_html_tag(parent)
+                if found:
+                    continue
                 for child in self.get_tag_children(parent, no_iframe=self.is_html):
                     if self.get_tag(child) == tag and self.is_html_tag(child):
                         found = True
